@@ -1,7 +1,9 @@
 """Real-form workload shared by the solver-level monitors: personas answering
 on demand (hv/scen.py), solved under the boundary wrappers, with the variants
 each property needs (refusal, gate flips, schedules, file/prompt splits)."""
+import os
 import random
+import re
 
 from hv import hx, scen, drive, trace, oracles
 from hv.common import Result, rng_for, h
@@ -20,6 +22,8 @@ def shards(pid, tier):
     for y in YEARS:
         for g in groups:
             sp.append({'kind': 'real', 'year': y, 'families': g, 'n': n if tier == 'quick' else max(1, n // 4)})
+        for part in range(3):
+            sp.append({'kind': 'real', 'year': y, 'directed': True, 'part': part, 'n': 1 if tier == 'quick' else 12})
     return sp
 
 
@@ -62,6 +66,11 @@ def run_shard(pid, spec, tier, seed):
     res = Result()
     year = spec['year']
     rng = rng_for(pid, 'real', seed, spec)
+    if spec.get('directed'):
+        for k_, (fam, p) in enumerate(scen.directed_personas(year, seed, spec['n'])):
+            if k_ % 3 == spec.get('part', 0):
+                run_case(pid, p, rng, res, spec, tier)
+        return res
     for fam in spec['families']:
         for p in scen.personas(seed, year, fam, spec['n']):
             run_case(pid, p, rng, res, spec, tier)
@@ -86,7 +95,9 @@ def run_case(pid, p, rng, res, spec, tier):
         res.sample({'persona': p.describe(), 'verdict': drive.verdict_class(out), 'prompts': len(tv.prompts), 'lines_stored': len(tv.stored)})
 
     def fresh(overrides=None):
-        return scen.Persona(p.year, p.family, p.key, overrides=dict(answers, **(overrides or {})))
+        q = scen.Persona(p.year, p.family, p.key, overrides=dict(answers, **(overrides or {})))
+        q.nc = p.nc           # a directed persona decides by itself which forms it requests
+        return q
 
     if pid == 'C01':
         for s, m in oracles.c01(out, tv):
@@ -96,8 +107,16 @@ def run_case(pid, p, rng, res, spec, tier):
         for k in sorted({0, rng.randint(0, max(0, nprompts - 1)), rng.randint(0, max(0, nprompts - 1)), max(0, nprompts - 1)}):
             variants.append((f'refuse-from-{k}', {'refuse_from': k}, None))
         gates = bool_inputs_read(tv)
-        for g in rng.sample(gates, min(4, len(gates))):
-            variants.append((f'flip:{g}', {}, {g: 'yes'}))
+        if spec.get('directed'):
+            # few, purpose-built returns: flip every curated gate they read
+            from hv.monitors import c09
+            cur = c09.gates_for(year, hx)
+            for g in gates:
+                if c09.strip_instance(g) in cur:
+                    variants.append((f'flip:{g}', {}, {g: 'yes'}))
+        else:
+            for g in rng.sample(gates, min(4, len(gates))):
+                variants.append((f'flip:{g}', {}, {g: 'yes'}))
         variants.append(('need_8962', {}, {'1040.need_8962': 'yes'}))
         variants.append(('oid', {}, {'1040.number_1099-oid': '1'}))
         for name, kw, ov in variants:
@@ -110,6 +129,14 @@ def run_case(pid, p, rng, res, spec, tier):
             res.distinct.add('R' + real_sig(o2, tv2))
             for s, m in oracles.c01(o2, tv2):
                 viol(res, pid, year, s, m, q, name, spec)
+            if name.startswith('flip:') and o2.exc is None and o2.ret is True:
+                from hv.monitors import c09
+                gates = c09.gates_for(year, hx)
+                g = c09.strip_instance(name[5:])
+                if g in gates and gates[g][0] is True and gates[g][1] is None and g.split('.')[0] not in c09.INPUT_FORMS:
+                    if any(r[0] == name[5:] and r[1] == 'value' and r[2] is True and r[5] != name[5:] for r in tv2.input_reads):
+                        viol(res, pid, year, 'solved-although-unsupported-situation-declared',
+                             f'{name[5:]} = yes ({gates[g][2]}) was consulted and the return still solved: something was silently skipped', q, name, spec)
     elif pid == 'C03':
         for ss in (None, 1, 2):
             if ss is None:
@@ -124,6 +151,39 @@ def run_case(pid, p, rng, res, spec, tier):
                 res.count('runs_with_reattempts')
             for s, m in v:
                 viol(res, pid, year, s, m, p, f'schedule:{ss}', spec)
+        # history: solve, change some inputs through the store's public mapping interface, solve again on the SAME store
+        if out.exc is None:
+            changed = {}
+            for key_, val_ in sorted(answers.items()):
+                if re.match(r'^w-2:\d+\.box_(1|2)$', key_) or key_ in ('1040.estimated_tax_payments',):
+                    try:
+                        changed[key_] = f'{float(val_ or 0) + 1234.5:.2f}'
+                    except ValueError:
+                        pass
+            if changed:
+                for key_, val_ in changed.items():
+                    out.store[key_] = val_
+                # second solver, same InputStore object as the first solve
+                with trace.Tracer(ceiling=CEILING) as t5:
+                    s5 = hx.solver.Solver(out.store, out.classes, prompt=None)
+                    o5 = drive.Outcome()
+                    o5.solver, o5.store, o5.cp, o5.classes = s5, out.store, out.cp, out.classes
+                    o5.request, o5.field_names, o5.prompts = p.forms(), [], []
+                    o5.initial_inputs = drive.final_inputs(out.cp)
+                    try:
+                        o5.ret = s5.solve(p.forms())
+                        o5.solution, o5.unimplemented = s5.solution(), list(s5.unimplemented_fields())
+                        o5.unmet_inputs, o5.unmet_fields = s5.unmet_input_dependencies(), s5.unmet_field_dependencies()
+                    except BaseException as e:  # noqa
+                        o5.exc = e
+                    o5.final_inputs = drive.final_inputs(out.cp)
+                tv5 = trace.TraceView(t5.events)
+                res.evaluations += 1
+                res.count('resolve_histories')
+                v, n = oracles.c03(o5, tv5)
+                res.count('lines_reevaluated', n)
+                for s_, m in v:
+                    viol(res, pid, year, s_, m, p, 'solve-change-inputs-solve', spec)
         k = rng.randint(0, max(0, len(tv.prompts) - 1))
         o3, tv3, _ = traced(fresh(), refuse_from=k)
         res.evaluations += 1
@@ -234,15 +294,26 @@ def run_case(pid, p, rng, res, spec, tier):
         rng.shuffle(items)
         variants.append(('split', {'file_map': dict(items[:len(items) // 2])}))
         variants.append(('file-layout', {'file_text': layout_text(answers, rng), 'refuse_from': 0}))
+        variants.append(('file-on-disk', {'file_on_disk': True, 'refuse_from': 0}))
         for name, kw in variants:
             kw = dict(kw)
             ft = kw.pop('file_text', None)
             q = fresh()
+            tmpdir = None
+            if kw.pop('file_on_disk', False):
+                import tempfile
+                from hv.monitors.c20 import write_ini
+                tmpdir = tempfile.mkdtemp(prefix='hv_c05_')
+                kw['input_path'] = os.path.join(tmpdir, 'in.ini')
+                write_ini(kw['input_path'], answers)
             if ft is not None:
                 cp = drive.config_from(text=ft)
                 kw['file_map'] = drive.final_inputs(cp)
                 res.count('layout_variants')
             o2, tv2, _ = traced(q, **kw)
+            if tmpdir:
+                import shutil
+                shutil.rmtree(tmpdir, ignore_errors=True)
             res.evaluations += 1
             res.count('variants_compared')
             seqs.add(c05.attempt_seq(tv2))
